@@ -98,6 +98,15 @@ let handle (s : sexp) : string = match s with
   | L [A "ginfo"; e] ->
       so (fun g -> "(" ^ sz (la_degree_q g) ^ " " ^ sq (la_norm2_q g) ^ " " ^ so sq (la_unitarity2_q g) ^ ")")
          (geval_q (gexpr_of e))
+  | L [A "c01"; phis; pc; eps; suc; tol] ->
+      let phis = list_of q_of phis and pc = list_of q_of pc in
+      let eps = q_of eps and suc = q_of suc and tol = q_of tol in
+      "(" ^ sb (check_c01 phis pc eps suc tol) ^ " " ^ so sz (c01_norm phis pc eps suc) ^ ")"
+  | L [A "ipoly"; phis; dmin; coefs; tol] ->
+      let phis = list_of q_of phis in
+      let f = { lp_dmin = z_of dmin; lp_coefs = list_of q_of coefs; lp_isz = false } in
+      "(" ^ sb (check_ipoly phis f (q_of tol)) ^ " " ^ so sz (ipoly_norm phis f) ^ ")"
+  | L [A "scale"] -> sz scaleZ
   | _ -> failwith "unknown command"
 
 let () =
